@@ -1,6 +1,7 @@
 package syntax
 
 import (
+	"encoding/base64"
 	"encoding/json"
 	"fmt"
 	"os"
@@ -9,6 +10,7 @@ import (
 	"strings"
 	"testing"
 	"time"
+	"unicode/utf8"
 
 	"pgregory.net/rapid"
 
@@ -101,6 +103,13 @@ func TestPlan(t *testing.T) {
 		p.Shards = append(p.Shards, ev.RapidShards("prog", "^TestProg$", nr, checks, nil)...)
 		p.Shards = append(p.Shards, ev.RapidShards("soup", "^TestSoup$", nr, checks*2, nil)...)
 		p.Shards = append(p.Shards, ev.RapidShards("bytes", "^TestBytes$", nr, checks, nil)...)
+	}
+	if id() == "C15" {
+		kn, kc := 4, 5000
+		if thorough {
+			kn, kc = 16, 40000
+		}
+		p.Shards = append(p.Shards, ev.RapidShards("known", "^TestKnownComments$", kn, kc, nil)...)
 	}
 	if id() != "C06" {
 		tot := identScriptsTotal()
@@ -266,6 +275,106 @@ func TestC06Prog(t *testing.T) {
 	})
 }
 
+// KnownCommentsCase: a rendered program together with the comments and docstrings it was written
+// with (base64: the texts may hold bytes that are not UTF-8).
+type KnownCommentsCase struct {
+	Src  InputCase `json:"src"`
+	Want []string  `json:"want_b64"`
+}
+
+func (c KnownCommentsCase) want() []string {
+	out := make([]string, len(c.Want))
+	for i, w := range c.Want {
+		b, _ := base64.StdEncoding.DecodeString(w)
+		out[i] = string(b)
+	}
+	return out
+}
+
+// checkKnownComments: the comments a file was written with are what its formatted text must
+// hold — judged against the writer's knowledge, not against what the parser made of the file.
+func checkKnownComments(s *ev.Shard, c KnownCommentsCase) *rp.Fail {
+	x := c.Src.input()
+	tree1, err1, pan1 := parse(x)
+	if pan1 != nil || err1 != nil {
+		if s != nil {
+			s.Class("blocked_by_C06_or_C08")
+		}
+		return nil
+	}
+	f1, panf := format(tree1)
+	if panf != nil {
+		return nil
+	}
+	tree2, err2, pan2 := parse(f1)
+	if pan2 != nil || err2 != nil {
+		// the formatted text cannot be read back (C07's subject); a comment that was kept with its text
+		// intact is still a piece of that text, in the order the comments were written
+		rest := f1
+		for _, w := range c.want() {
+			text := w[2:]
+			if strings.HasPrefix(w, "T:") {
+				text = w[strings.Index(w[2:], ":")+3:]
+			} else if !strings.HasPrefix(w, "C:") {
+				continue
+			}
+			if text == "" {
+				continue
+			}
+			i := strings.Index(rest, text)
+			if i < 0 {
+				return &rp.Fail{Sig: "comment-text-lost", Size: len(x), Msg: fmt.Sprintf("input %q was written with the comment/docstring %q, which is nowhere (in order) in its formatted text %q", x, text, f1)}
+			}
+			rest = rest[i+len(text):]
+		}
+		if s != nil {
+			s.Class("blocked_by_C07")
+		}
+		return nil
+	}
+	want, got := c.want(), gen.Comments(gen.Project(tree2))
+	if strings.Join(want, "\x00") != strings.Join(got, "\x00") {
+		return &rp.Fail{Sig: "comments-changed", Size: len(x), Msg: fmt.Sprintf("input %q was written with comments/docstrings %q, its formatted text %q has %q", x, want, f1, got)}
+	}
+	if s != nil {
+		s.Class("space_known_comments")
+		if !utf8.ValidString(x) {
+			s.Class("comment_text_not_utf8")
+		}
+		if len(want) >= 2 && f1 != x {
+			s.NonTrivial("known:" + x)
+		}
+	}
+	return nil
+}
+
+func TestKnownComments(t *testing.T) {
+	s := ev.Open(t, "C15")
+	rp.Check(t, s, "known-comments", func(rt *rapid.T) KnownCommentsCase {
+		want := gen.Program(rt)
+		for i := range want {
+			// legacy encodings: a comment or docstring may hold bytes that are not UTF-8
+			if want[i].Kind == "comment" && rapid.IntRange(0, 7).Draw(rt, "odd_comment") == 0 {
+				want[i].Text += rapid.SampledFrom([]string{" caf\xe9", "\xe9", " \xff!", "\xc3", " na\xefve \xa0"}).Draw(rt, "odd_bytes")
+			}
+			if want[i].Kind == "task" && want[i].HasDoc && rapid.IntRange(0, 7).Draw(rt, "odd_doc") == 0 {
+				want[i].Doc += rapid.SampledFrom([]string{" caf\xe9", "\xe9", " \xff!", "\xc3"}).Draw(rt, "odd_doc_bytes")
+			}
+		}
+		x := gen.Render(gen.RapidChooser{T: rt}, want)
+		c := KnownCommentsCase{Src: mkInput(x)}
+		for _, w := range gen.Comments(want) {
+			c.Want = append(c.Want, base64.StdEncoding.EncodeToString([]byte(w)))
+		}
+		return c
+	}, func(c KnownCommentsCase) *rp.Fail {
+		if s.WantSample() {
+			s.Sample(c.Src.Text)
+		}
+		return checkKnownComments(s, c)
+	})
+}
+
 // TestProg feeds generated programs in random layouts to the input-level properties.
 func TestProg(t *testing.T) {
 	s := ev.Open(t, id())
@@ -273,9 +382,9 @@ func TestProg(t *testing.T) {
 	defer s.Done()
 	rp.Check(t, s, "input", func(rt *rapid.T) InputCase {
 		if rapid.IntRange(0, 2).Draw(rt, "joined") == 0 {
-			return mkInput(gen.RenderJoined(gen.RapidChooser{T: rt}, gen.Program(rt)))
+			return mkInput(gen.WithStrayBytes(rt, gen.RenderJoined(gen.RapidChooser{T: rt}, gen.Program(rt))))
 		}
-		return genProg(rt).Src
+		return mkInput(gen.WithStrayBytes(rt, genProg(rt).Src.input()))
 	}, func(c InputCase) *rp.Fail {
 		x := c.input()
 		s.Progress(0, []byte(x))
@@ -317,6 +426,12 @@ func TestReplay(t *testing.T) {
 		f = checkInput(v.Property, nil, InputCase{B64: c.Payload}.input())
 		// the lexer goroutine may outlive the parse and die afterwards: give it time to
 		time.Sleep(300 * time.Millisecond)
+	case "known-comments":
+		var c KnownCommentsCase
+		if err := json.Unmarshal(v.Case, &c); err != nil {
+			t.Fatal(err)
+		}
+		f = checkKnownComments(nil, c)
 	case "prog":
 		var c ProgCase
 		if err := json.Unmarshal(v.Case, &c); err != nil {
@@ -336,7 +451,9 @@ func TestSoup(t *testing.T) {
 	s := ev.Open(t, id())
 	s.Watchdog(10*time.Second, 6<<30)
 	defer s.Done()
-	rp.Check(t, s, "input", func(rt *rapid.T) InputCase { return mkInput(gen.WithHugeLine(rt, gen.Soup(rt))) }, func(c InputCase) *rp.Fail {
+	rp.Check(t, s, "input", func(rt *rapid.T) InputCase {
+		return mkInput(gen.WithStrayBytes(rt, gen.WithHugeLine(rt, gen.Soup(rt))))
+	}, func(c InputCase) *rp.Fail {
 		x := c.input()
 		s.Progress(0, []byte(x))
 		s.Tick()
